@@ -22,7 +22,9 @@ namespace HdVerif.PMap
 open HdVerif HdVerif.Gen HdVerif.Codec
 
 abbrev Cell := List Nat
-abbrev Pos := List Rat
+/-- a plane position as the values of the indexed attributes, one component per dimension index: patient
+    coordinate system `[[x, y, z]]` (Image Position Patient), slide `[[col], [row], [x], [y], [z]]` -/
+abbrev Pos := List (List Rat)
 
 /-- one item of a Real World Value Mapping Sequence -/
 structure Mapping where
@@ -63,7 +65,7 @@ structure PMInput where
 
 structure FrameRecord where
   position : Pos
-  dimensionIndex : Nat
+  dimensionIndex : List Nat
   /-- Real World Value Mapping Sequence of the frame's own functional group, if written -/
   mappings : Option (List Mapping)
   deriving Repr, DecidableEq
@@ -87,16 +89,23 @@ structure PMObject where
 
 /-! ### the constructor -/
 
-/-- lexicographic order of positions (`numpy.unique(..., axis=0)` sorts rows this way) -/
-def lexLt : Pos → Pos → Bool
+/-- lexicographic order of attribute values (`numpy.unique(..., axis=0)` sorts rows this way) -/
+def lexLt : List Rat → List Rat → Bool
   | [], [] => false
   | [], _ :: _ => true
   | _ :: _, [] => false
   | a :: as, b :: bs => if a < b then true else if b < a then false else lexLt as bs
 
-/-- 1-based rank of `p` among the distinct positions of the planes -/
-def dimensionIndex (x : PMInput) (i : Nat) : Nat :=
-  1 + (((List.range x.n).map x.pos).eraseDups.filter (fun q => lexLt q (x.pos i))).length
+/-- 1-based rank of `v` among the distinct values `vs` -/
+def rankIn (vs : List (List Rat)) (v : List Rat) : Nat := 1 + (vs.eraseDups.filter (fun q => lexLt q v)).length
+
+/-- Dimension Index Values of plane `i`: for every indexed attribute the rank of the plane's value among the
+    distinct values of all planes -/
+def dimensionIndex (x : PMInput) (i : Nat) : List Nat :=
+  (List.range (x.pos i).length).map (fun d =>
+    match (x.pos i)[d]? with
+    | some v => rankIn ((List.range x.n).filterMap (fun k => (x.pos k)[d]?)) v
+    | none => 0)
 
 /-- `pixel_array[i, :, :, j]` -/
 def plane (x : PMInput) (i j : Nat) : List Cell := (List.range (x.r * x.c)).map (fun k => x.cell i k j)
